@@ -237,8 +237,21 @@ Proof.
 Qed.
 
 (* ---------------------------------------------------------------- whole values *)
+Definition ws_list (w : list N) : Prop := Forall (fun b => is_ws b = true) w.
+
+Lemma skip_unused_fuel_ws : forall w fuel c r, ws_list w -> (length w < fuel)%nat -> is_ws c = false -> c <> 92 ->
+  skip_unused_fuel fuel (w ++ c :: r) = c :: r.
+Proof.
+  induction w as [|b w IH]; intros fuel c r Hw Hf H1 H2; (destruct fuel as [|fuel]; [cbn [length] in Hf; lia|]); cbn [app skip_unused_fuel].
+  - rewrite H1. apply N.eqb_neq in H2. rewrite H2. reflexivity.
+  - inversion Hw as [|? ? Hb Hw']; subst. rewrite Hb. apply IH; [exact Hw'|cbn [length] in Hf; lia|exact H1|exact H2].
+Qed.
+Lemma skip_unused_ws w c r : ws_list w -> is_ws c = false -> c <> 92 -> skip_unused (w ++ c :: r) = c :: r.
+Proof. intros Hw H1 H2. unfold skip_unused. apply skip_unused_fuel_ws; [exact Hw|rewrite app_length; cbn [length]; lia|exact H1|exact H2]. Qed.
 Lemma skip_unused_head c r : is_ws c = false -> c <> 92 -> skip_unused (c :: r) = c :: r.
-Proof. intros H1 H2. unfold skip_unused. cbn [length skip_unused_fuel]. rewrite H1. apply N.eqb_neq in H2. rewrite H2. reflexivity. Qed.
+Proof. apply (skip_unused_ws [] c r). constructor. Qed.
+Lemma ws_indent k : ws_list (indent k).
+Proof. unfold indent. induction k as [|k IH]; [constructor|]. cbn [repeat]. constructor; [reflexivity|exact IH]. Qed.
 
 Fixpoint no_float (v : value) : bool :=
   match v with
@@ -256,37 +269,57 @@ Fixpoint tlen (v : value) : nat :=
   | _ => 1%nat
   end.
 
+(* what may follow a value inside a rendering: a comma, a closing bracket, or the line break before one *)
 Definition after_value (rest : list N) : Prop :=
-  match rest with [] => True | c :: _ => c = 44 \/ c = 93 \/ c = 125 end.
+  match rest with [] => True | c :: _ => c = 44 \/ c = 93 \/ c = 125 \/ c = 10 end.
 Lemma after_value_ends rest : after_value rest -> ends_number rest.
-Proof. destruct rest as [|c r]; [trivial|]. intros [-> | [-> | ->]]; repeat split; (reflexivity || discriminate). Qed.
+Proof. destruct rest as [|c r]; [trivial|]. intros [-> | [-> | [-> | ->]]]; repeat split; (reflexivity || discriminate). Qed.
 
 Section Roundtrip.
   Variable pf : N -> list N.
+  Variable pretty : bool.
 
-  (* the element and member lists of the compact rendering, named *)
+  Definition sep : list N := if pretty then [44; 10] else [44].
+  Definition pad (k : nat) : list N := if pretty then indent k else [].
+  Definition opening (c : N) : list N := if pretty then [c; 10] else [c].
+  Definition closing (ind : nat) : list N := if pretty then 10 :: indent ind else [].
+  Definition colon : list N := if pretty then [58; 32] else [58].
+
+  (* the element and member lists of a rendering, named *)
   Definition ritems (ind : nat) : bool -> list value -> list N :=
     fix go (first : bool) (l : list value) : list N :=
       match l with
       | [] => []
-      | x :: r => (if first then [] else [44]) ++ [] ++ render pf false (ind + 2) x ++ go false r
+      | x :: r => (if first then [] else sep) ++ pad (ind + 2) ++ render pf pretty (ind + 2) x ++ go false r
       end.
   Definition rmembers (ind : nat) : bool -> list (list N * value) -> list N :=
     fix go (first : bool) (o : list (list N * value)) : list N :=
       match o with
       | [] => []
-      | (k, x) :: r => (if first then [] else [44]) ++ [] ++ escape_string k ++ [58] ++ render pf false (ind + 2) x ++ go false r
+      | (k, x) :: r => (if first then [] else sep) ++ pad (ind + 2) ++ escape_string k ++ colon ++ render pf pretty (ind + 2) x ++ go false r
       end.
   Lemma ritems_cons ind first x r :
-    ritems ind first (x :: r) = (if first then [] else [44]) ++ render pf false (ind + 2) x ++ ritems ind false r.
+    ritems ind first (x :: r) = (if first then [] else sep) ++ pad (ind + 2) ++ render pf pretty (ind + 2) x ++ ritems ind false r.
   Proof. reflexivity. Qed.
   Lemma rmembers_cons ind first k x r :
-    rmembers ind first ((k, x) :: r) = (if first then [] else [44]) ++ escape_string k ++ 58 :: render pf false (ind + 2) x ++ rmembers ind false r.
+    rmembers ind first ((k, x) :: r)
+    = (if first then [] else sep) ++ pad (ind + 2) ++ escape_string k ++ colon ++ render pf pretty (ind + 2) x ++ rmembers ind false r.
   Proof. reflexivity. Qed.
-  Lemma render_arr ind l : render pf false ind (VArr l) = 91 :: ritems ind true l ++ [93].
-  Proof. reflexivity. Qed.
-  Lemma render_obj ind o : render pf false ind (VObj o) = 123 :: rmembers ind true o ++ [125].
-  Proof. reflexivity. Qed.
+  Lemma render_arr ind l : render pf pretty ind (VArr l) = opening 91 ++ ritems ind true l ++ closing ind ++ [93].
+  Proof. unfold opening, closing, ritems, sep, pad. destruct pretty; reflexivity. Qed.
+  Lemma render_obj ind o : render pf pretty ind (VObj o) = opening 123 ++ rmembers ind true o ++ closing ind ++ [125].
+  Proof. unfold opening, closing, rmembers, sep, pad, colon. destruct pretty; reflexivity. Qed.
+
+  Lemma ws_pad k : ws_list (pad k).
+  Proof. unfold pad. destruct pretty; [apply ws_indent|constructor]. Qed.
+  Lemma ws_closing k : ws_list (closing k).
+  Proof. unfold closing. destruct pretty; [constructor; [reflexivity|apply ws_indent]|constructor]. Qed.
+  Lemma opening_cons c : exists w, opening c = c :: w /\ ws_list w.
+  Proof. unfold opening. destruct pretty; [exists [10]; split; [reflexivity|constructor; [reflexivity|constructor]]|exists []; split; [reflexivity|constructor]]. Qed.
+  Lemma sep_cons : exists w, sep = 44 :: w /\ ws_list w.
+  Proof. unfold sep. destruct pretty; [exists [10]; split; [reflexivity|constructor; [reflexivity|constructor]]|exists []; split; [reflexivity|constructor]]. Qed.
+  Lemma colon_cons : exists w, colon = 58 :: w /\ ws_list w.
+  Proof. unfold colon. destruct pretty; [exists [32]; split; [reflexivity|constructor; [reflexivity|constructor]]|exists []; split; [reflexivity|constructor]]. Qed.
 
   (* the first byte of a rendering starts a value: not whitespace, not a backslash, none of , ] } *)
   Definition value_start (c : N) : Prop := is_ws c = false /\ c <> 92 /\ c <> 93 /\ c <> 44 /\ c <> 125.
@@ -298,7 +331,7 @@ Section Roundtrip.
   Qed.
 
   Lemma render_head v ind : wf_shape v = true -> no_float v = true ->
-    exists c r, render pf false ind v = c :: r /\ value_start c.
+    exists c r, render pf pretty ind v = c :: r /\ value_start c.
   Proof.
     intros Hw Hn. destruct v as [|bb|s|nn|l|o]; [|destruct bb| |destruct nn as [z|n|b]| |]; try discriminate Hn;
       try (eexists; eexists; split; [reflexivity|repeat split; (reflexivity || discriminate)]).
@@ -309,74 +342,80 @@ Section Roundtrip.
         destruct (dec_digits_cons _ Hn2) as (d & r & E & Hdd). rewrite E. exists d, r. split; [reflexivity|]. apply digit_start. exact Hdd.
     - cbn [render number_text]. cbn [wf_shape num_in_range] in Hw. apply N.ltb_lt in Hw.
       destruct (dec_digits_cons _ Hw) as (d & r & E & Hdd). rewrite E. exists d, r. split; [reflexivity|]. apply digit_start. exact Hdd.
+    - rewrite render_arr. destruct (opening_cons 91) as (w & -> & _). eexists; eexists; split; [reflexivity|repeat split; (reflexivity || discriminate)].
+    - rewrite render_obj. destruct (opening_cons 123) as (w & -> & _). eexists; eexists; split; [reflexivity|repeat split; (reflexivity || discriminate)].
   Qed.
 
-  (* a string literal as a value *)
-  Lemma string_value_rt s rest fuel : bytes_ok s -> utf8_valid s = true -> (0 < fuel)%nat ->
-    parse_json_value fuel (escape_string s ++ rest) = Ok (VStr s, rest).
+  (* a string literal as a value, after any whitespace *)
+  Lemma string_value_rt w s rest fuel : ws_list w -> bytes_ok s -> utf8_valid s = true -> (0 < fuel)%nat ->
+    parse_json_value fuel (w ++ escape_string s ++ rest) = Ok (VStr s, rest).
   Proof.
-    intros Hs Hu Hf. destruct fuel as [|f]; [lia|]. unfold escape_string. cbn [app parse_json_value].
-    rewrite skip_unused_head by (reflexivity || discriminate).
+    intros Hw Hs Hu Hf. destruct fuel as [|f]; [lia|]. unfold escape_string. cbn [app parse_json_value].
+    rewrite (skip_unused_ws w) by (assumption || reflexivity || discriminate).
     change (34 =? 110) with false. change (34 =? 116) with false. change (34 =? 102) with false.
     change (is_digit 34 || (34 =? 45)) with false. change (34 =? 34) with true. cbv iota.
     rewrite <- app_assoc. cbn [app]. rewrite (string_roundtrip s rest Hs Hu). reflexivity.
   Qed.
 
-  Lemma number_value_rt n ind rest fuel : num_in_range n = true -> no_float (VNum n) = true -> after_value rest -> (0 < fuel)%nat ->
-    parse_json_value fuel (render pf false ind (VNum n) ++ rest) = Ok (unsign (VNum n), rest).
+  Lemma number_value_rt w n ind rest fuel : ws_list w -> num_in_range n = true -> no_float (VNum n) = true -> after_value rest -> (0 < fuel)%nat ->
+    parse_json_value fuel (w ++ render pf pretty ind (VNum n) ++ rest) = Ok (unsign (VNum n), rest).
   Proof.
-    intros Hr Hn Ha Hf. destruct fuel as [|f]; [lia|]. pose proof (after_value_ends rest Ha) as He.
+    intros Hw Hr Hn Ha Hf. destruct fuel as [|f]; [lia|]. pose proof (after_value_ends rest Ha) as He.
     destruct n as [z|u|b]; [| |discriminate Hn]; cbn [render number_text unsign unsign_num].
     - cbn [num_in_range] in Hr. apply andb_true_iff in Hr. destruct Hr as [R1 R2]. apply Z.leb_le in R1. apply Z.ltb_lt in R2.
       destruct (z <? 0)%Z eqn:Ez; [apply Z.ltb_lt in Ez|apply Z.ltb_ge in Ez].
       + pose proof (parse_negint_token z rest ltac:(lia) He) as P.
         unfold dec_Z in *. replace (z <? 0)%Z with true in * by (symmetry; apply Z.ltb_lt; lia).
-        cbn [app parse_json_value]. rewrite skip_unused_head by (reflexivity || discriminate).
+        cbn [app parse_json_value]. rewrite (skip_unused_ws w) by (assumption || reflexivity || discriminate).
         change (45 =? 110) with false. change (45 =? 116) with false. change (45 =? 102) with false.
         change (is_digit 45 || (45 =? 45)) with true. cbv iota. exact P.
       + assert (Hu : Z.to_N z < two64) by (unfold two64, two63 in *; lia).
         pose proof (parse_uint_token (Z.to_N z) rest Hu He) as P.
         unfold dec_Z. replace (z <? 0)%Z with false by (symmetry; apply Z.ltb_ge; lia).
         destruct (dec_digits_cons _ Hu) as (d & r & E & Hdd). rewrite E in *. destruct (digit_start d Hdd) as ((W & N92 & _) & T1 & T2 & T3).
-        cbn [app parse_json_value]. rewrite skip_unused_head by assumption. rewrite T1, T2, T3, Hdd. cbn [orb]. exact P.
+        cbn [app parse_json_value]. rewrite (skip_unused_ws w) by assumption. rewrite T1, T2, T3, Hdd. cbn [orb]. exact P.
     - cbn [num_in_range] in Hr. apply N.ltb_lt in Hr.
       pose proof (parse_uint_token u rest Hr He) as P.
       destruct (dec_digits_cons _ Hr) as (d & r & E & Hdd). rewrite E in *. destruct (digit_start d Hdd) as ((W & N92 & _) & T1 & T2 & T3).
-      cbn [app parse_json_value]. rewrite skip_unused_head by assumption. rewrite T1, T2, T3, Hdd. cbn [orb]. exact P.
+      cbn [app parse_json_value]. rewrite (skip_unused_ws w) by assumption. rewrite T1, T2, T3, Hdd. cbn [orb]. exact P.
   Qed.
-End Roundtrip.
 
-Section Roundtrip2.
-  Variable pf : N -> list N.
-
-  Lemma after_items ind r rest : after_value (ritems pf ind false r ++ 93 :: rest).
-  Proof. destruct r as [|x r]; [right; left; reflexivity|]. rewrite ritems_cons. left. reflexivity. Qed.
-  Lemma after_members ind r rest : after_value (rmembers pf ind false r ++ 125 :: rest).
-  Proof. destruct r as [|[k x] r]; [right; right; reflexivity|]. rewrite rmembers_cons. left. reflexivity. Qed.
+  Lemma after_items ind r rest : after_value (ritems ind false r ++ closing ind ++ 93 :: rest).
+  Proof.
+    destruct r as [|x r].
+    - cbn [ritems app]. unfold closing. destruct pretty; cbn [app]; [right; right; right; reflexivity|right; left; reflexivity].
+    - rewrite ritems_cons. destruct sep_cons as (w & -> & _). left. reflexivity.
+  Qed.
+  Lemma after_members ind r rest : after_value (rmembers ind false r ++ closing ind ++ 125 :: rest).
+  Proof.
+    destruct r as [|[k x] r].
+    - cbn [rmembers app]. unfold closing. destruct pretty; cbn [app]; [right; right; right; reflexivity|right; right; left; reflexivity].
+    - rewrite rmembers_cons. destruct sep_cons as (w & -> & _). left. reflexivity.
+  Qed.
 
   (* the array loop, given that the element parser reads each remaining element back *)
   Lemma arr_loop_rt f ind rest : forall todo acc first k, (length todo < k)%nat ->
     Forall (fun x => wf_shape x = true /\ no_float x = true /\
-                     forall rest', after_value rest' -> parse_json_value f (render pf false (ind + 2) x ++ rest') = Ok (unsign x, rest')) todo ->
-    arr_loop (parse_json_value f) k first acc (ritems pf ind first todo ++ 93 :: rest)
+                     forall w rest', ws_list w -> after_value rest' ->
+                       parse_json_value f (w ++ render pf pretty (ind + 2) x ++ rest') = Ok (unsign x, rest')) todo ->
+    arr_loop (parse_json_value f) k first acc (ritems ind first todo ++ closing ind ++ 93 :: rest)
     = Ok (VArr (rev acc ++ map unsign todo), rest).
   Proof.
     induction todo as [|x r IH]; intros acc first k Hk HF; (destruct k as [|k]; [cbn [length] in Hk; lia|]); cbn [arr_loop].
-    - cbn [ritems app]. rewrite skip_unused_head by (reflexivity || discriminate).
+    - cbn [ritems app]. rewrite (skip_unused_ws (closing ind)) by (apply ws_closing || reflexivity || discriminate).
       change (93 =? 93) with true. cbv iota. rewrite app_nil_r. reflexivity.
     - inversion HF as [|? ? (Hw & Hn & Hx) HF']; subst. rewrite ritems_cons.
-      destruct (render_head pf x (ind + 2) Hw Hn) as (c & r0 & Ec & (W & N92 & N93 & N44 & N125)).
-      assert (Tail : forall bs', bs' = render pf false (ind + 2) x ++ ritems pf ind false r ++ 93 :: rest ->
-                parse_json_value f bs' = Ok (unsign x, ritems pf ind false r ++ 93 :: rest)).
-      { intros bs' ->. apply Hx. apply after_items. }
+      destruct (render_head x (ind + 2) Hw Hn) as (c & r0 & Ec & (W & N92 & N93 & N44 & N125)).
+      pose proof (after_items ind r rest) as AT.
+      repeat rewrite <- app_assoc.
       destruct first.
-      + cbn [app]. rewrite <- app_assoc. rewrite Ec at 1. cbn [app]. rewrite skip_unused_head by assumption.
+      + cbn [app]. rewrite Ec at 1. cbn [app]. rewrite (skip_unused_ws (pad (ind + 2))) by (apply ws_pad || assumption).
         apply N.eqb_neq in N93. rewrite N93.
-        rewrite (Tail (c :: r0 ++ ritems pf ind false r ++ 93 :: rest)) by (rewrite Ec; reflexivity). cbn [bind].
+        pose proof (Hx [] _ ltac:(constructor) AT) as P. cbn [app] in P. rewrite Ec in P at 1. cbn [app] in P. rewrite P. cbn [bind].
         rewrite IH by (cbn [length] in Hk; try lia; exact HF'). cbn [rev map]. rewrite <- app_assoc. reflexivity.
-      + cbn [app]. rewrite <- app_assoc. rewrite skip_unused_head by (reflexivity || discriminate).
+      + destruct sep_cons as (ws & -> & Hws). cbn [app]. rewrite skip_unused_head by (reflexivity || discriminate).
         change (44 =? 93) with false. change (44 =? 44) with true. cbv iota.
-        rewrite (Tail _ eq_refl). cbn [bind].
+        rewrite app_assoc. rewrite (Hx (ws ++ pad (ind + 2)) _ ltac:(apply Forall_app; split; [exact Hws|apply ws_pad]) AT). cbn [bind].
         rewrite IH by (cbn [length] in Hk; try lia; exact HF'). cbn [rev map]. rewrite <- app_assoc. reflexivity.
   Qed.
 
@@ -384,131 +423,187 @@ Section Roundtrip2.
 
   Lemma obj_loop_rt f ind rest : (0 < f)%nat -> forall todo acc first k, (length todo < k)%nat ->
     Forall (fun kv => bytes_ok (fst kv) /\ utf8_valid (fst kv) = true /\ wf_shape (snd kv) = true /\ no_float (snd kv) = true /\
-                      forall rest', after_value rest' -> parse_json_value f (render pf false (ind + 2) (snd kv) ++ rest') = Ok (unsign (snd kv), rest')) todo ->
+                      forall w rest', ws_list w -> after_value rest' ->
+                        parse_json_value f (w ++ render pf pretty (ind + 2) (snd kv) ++ rest') = Ok (unsign (snd kv), rest')) todo ->
     strongly_sorted todo ->
     Forall (fun a => Forall (fun kv => bytes_cmp (fst a) (fst kv) = Lt) todo) acc ->
-    obj_loop (parse_json_value f) k first acc (rmembers pf ind first todo ++ 125 :: rest)
+    obj_loop (parse_json_value f) k first acc (rmembers ind first todo ++ closing ind ++ 125 :: rest)
     = Ok (VObj (acc ++ unsign_members todo), rest).
   Proof.
     intros Hf. induction todo as [|[key x] r IH]; intros acc first k Hk HF HS HA; (destruct k as [|k]; [cbn [length] in Hk; lia|]); cbn [obj_loop].
-    - cbn [rmembers app]. rewrite skip_unused_head by (reflexivity || discriminate).
+    - cbn [rmembers app]. rewrite (skip_unused_ws (closing ind)) by (apply ws_closing || reflexivity || discriminate).
       change (125 =? 125) with true. cbv iota. unfold unsign_members. cbn [map]. rewrite app_nil_r. reflexivity.
     - inversion HF as [|? ? (Hkb & Hku & Hw & Hn & Hx) HF']; subst. cbn [fst snd] in *. rewrite rmembers_cons.
       destruct HS as [HS1 HS2].
-      assert (Step : forall bs', bs' = escape_string key ++ 58 :: render pf false (ind + 2) x ++ rmembers pf ind false r ++ 125 :: rest ->
-                (do (key0, bs1) <- parse_json_value f bs';
+      destruct colon_cons as (wc & EC & Hwc).
+      pose proof (after_members ind r rest) as AT.
+      assert (Step : forall w, ws_list w ->
+                (do (key0, bs1) <- parse_json_value f (w ++ escape_string key ++ colon ++ render pf pretty (ind + 2) x ++ rmembers ind false r ++ closing ind ++ 125 :: rest);
                  match key0 with
                  | VStr ks => match skip_unused bs1 with
                               | 58 :: bs2 => do (v, bs3) <- parse_json_value f bs2; obj_loop (parse_json_value f) k false (assoc_insert ks v acc) bs3
                               | _ => Err EOther end
                  | _ => Err EOther end)
-                = obj_loop (parse_json_value f) k false (assoc_insert key (unsign x) acc) (rmembers pf ind false r ++ 125 :: rest)).
-      { intros bs' ->. rewrite (string_value_rt key _ f Hkb Hku Hf). cbn [bind].
+                = obj_loop (parse_json_value f) k false (assoc_insert key (unsign x) acc) (rmembers ind false r ++ closing ind ++ 125 :: rest)).
+      { intros w Hww. rewrite (string_value_rt w key _ f Hww Hkb Hku Hf). cbn [bind]. rewrite EC. cbn [app].
         rewrite skip_unused_head by (reflexivity || discriminate).
-        rewrite (Hx _ (after_members ind r rest)). reflexivity. }
+        rewrite (Hx wc _ Hwc AT). reflexivity. }
       assert (Ins : assoc_insert key (unsign x) acc = acc ++ [(key, unsign x)]).
       { apply assoc_insert_append. eapply Forall_impl; [|exact HA]. intros a Ha. inversion Ha as [|? ? Hak _]; subst. cbn [fst] in Hak.
         rewrite bytes_antisym, Hak. reflexivity. }
-      assert (Next : obj_loop (parse_json_value f) k false (acc ++ [(key, unsign x)]) (rmembers pf ind false r ++ 125 :: rest)
+      assert (Next : obj_loop (parse_json_value f) k false (acc ++ [(key, unsign x)]) (rmembers ind false r ++ closing ind ++ 125 :: rest)
                      = Ok (VObj (acc ++ unsign_members ((key, x) :: r)), rest)).
       { rewrite IH; [unfold unsign_members; cbn [map fst snd]; rewrite <- app_assoc; reflexivity|cbn [length] in Hk; lia|exact HF'|exact HS2|].
         apply Forall_app. split.
         - eapply Forall_impl; [|exact HA]. intros a Ha. inversion Ha; subst. assumption.
         - constructor; [exact HS1|constructor]. }
-      assert (EC : forall t, escape_string key ++ t = 34 :: flat_map escape_byte key ++ 34 :: t)
+      assert (EK : forall t, escape_string key ++ t = 34 :: flat_map escape_byte key ++ 34 :: t)
         by (intros t; unfold escape_string; cbn [app]; rewrite <- app_assoc; reflexivity).
-      repeat (rewrite <- app_assoc || rewrite <- app_comm_cons).
+      repeat rewrite <- app_assoc.
       destruct first.
-      + cbn [app]. rewrite EC. rewrite skip_unused_head by (reflexivity || discriminate).
+      + cbn [app]. rewrite EK. rewrite (skip_unused_ws (pad (ind + 2))) by (apply ws_pad || reflexivity || discriminate).
         change (34 =? 125) with false. cbv iota.
-        rewrite (Step _ (eq_sym (EC _))), Ins. exact Next.
-      + cbn [app]. rewrite skip_unused_head by (reflexivity || discriminate).
+        pose proof (Step [] ltac:(constructor)) as S0. cbn [app] in S0. rewrite EK in S0. rewrite S0, Ins. exact Next.
+      + destruct sep_cons as (ws & -> & Hws). cbn [app]. rewrite skip_unused_head by (reflexivity || discriminate).
         change (44 =? 125) with false. change (44 =? 44) with true. cbv iota.
-        rewrite (Step _ eq_refl), Ins. exact Next.
+        rewrite app_assoc. rewrite (Step (ws ++ pad (ind + 2)) ltac:(apply Forall_app; split; [exact Hws|apply ws_pad])), Ins. exact Next.
   Qed.
-End Roundtrip2.
-
-Section Roundtrip3.
-  Variable pf : N -> list N.
 
   Lemma sum_tlen_ge (l : list value) x : In x l -> (tlen x <= fold_right (fun x a => tlen x + a) 0 l)%nat.
   Proof. induction l as [|y l IH]; [intros []|]. cbn [fold_right]. intros [->|H]; [lia|]. specialize (IH H). lia. Qed.
   Lemma sum_tlen_ge_obj (o : list (list N * value)) kv : In kv o -> (tlen (snd kv) <= fold_right (fun kv a => tlen (snd kv) + a) 0 o)%nat.
   Proof. induction o as [|y o IH]; [intros []|]. cbn [fold_right]. intros [->|H]; [lia|]. specialize (IH H). lia. Qed.
 
-  Theorem value_rt : forall v, wf_shape v = true -> no_float v = true -> forall ind rest fuel, after_value rest -> (tlen v < fuel)%nat ->
-    parse_json_value fuel (render pf false ind v ++ rest) = Ok (unsign v, rest).
+  Theorem value_rt : forall v, wf_shape v = true -> no_float v = true -> forall ind w rest fuel, ws_list w -> after_value rest -> (tlen v < fuel)%nat ->
+    parse_json_value fuel (w ++ render pf pretty ind v ++ rest) = Ok (unsign v, rest).
   Proof.
-    induction v as [|b|s|n|l IH|o IH] using value_ind2; intros Hw Hn ind rest fuel Ha Hf.
+    induction v as [|b|s|n|l IH|o IH] using value_ind2; intros Hw Hn ind w rest fuel Hws Ha Hf.
     - destruct fuel as [|f]; [cbn [tlen] in Hf; lia|]. cbn [render app parse_json_value].
-      rewrite skip_unused_head by (reflexivity || discriminate). reflexivity.
+      rewrite (skip_unused_ws w) by (assumption || reflexivity || discriminate). reflexivity.
     - destruct fuel as [|f]; [cbn [tlen] in Hf; lia|]. destruct b; cbn [render app parse_json_value];
-        rewrite skip_unused_head by (reflexivity || discriminate); reflexivity.
+        rewrite (skip_unused_ws w) by (assumption || reflexivity || discriminate); reflexivity.
     - cbn [wf_shape] in Hw. apply andb_true_iff in Hw. destruct Hw as [Hb Hu].
-      cbn [render unsign]. apply string_value_rt; [unfold bytes_ok; apply Forall_forall; unfold bytes_okb in Hb; rewrite forallb_forall in Hb; intros x Hx; apply N.ltb_lt; apply Hb; exact Hx|exact Hu|cbn [tlen] in Hf; lia].
-    - apply number_value_rt; [exact Hw|exact Hn|exact Ha|cbn [tlen] in Hf; lia].
-    - destruct fuel as [|f]; [lia|]. rewrite render_arr. cbn [app parse_json_value].
-      rewrite skip_unused_head by (reflexivity || discriminate).
+      cbn [render unsign]. apply string_value_rt; [exact Hws|unfold bytes_ok; apply Forall_forall; unfold bytes_okb in Hb; rewrite forallb_forall in Hb; intros x Hx; apply N.ltb_lt; apply Hb; exact Hx|exact Hu|cbn [tlen] in Hf; lia].
+    - apply number_value_rt; [exact Hws|exact Hw|exact Hn|exact Ha|cbn [tlen] in Hf; lia].
+    - destruct fuel as [|f]; [lia|]. rewrite render_arr. destruct (opening_cons 91) as (wo & -> & Hwo).
+      replace (w ++ ((91 :: wo) ++ ritems ind true l ++ closing ind ++ [93]) ++ rest)
+        with (w ++ 91 :: (wo ++ ritems ind true l ++ closing ind ++ 93 :: rest))
+        by (cbn [app]; repeat (rewrite <- app_assoc || rewrite <- app_comm_cons); cbn [app]; reflexivity).
+      cbn [parse_json_value].
+      rewrite (skip_unused_ws w) by (assumption || reflexivity || discriminate).
       change (91 =? 110) with false. change (91 =? 116) with false. change (91 =? 102) with false.
       change (is_digit 91 || (91 =? 45)) with false. change (91 =? 34) with false. change (91 =? 91) with true. cbv iota.
-      rewrite <- app_assoc. cbn [app].
       cbn [tlen] in Hf. cbn [wf_shape] in Hw. cbn [no_float] in Hn. rewrite forallb_forall in Hw, Hn. rewrite Forall_forall in IH.
-      rewrite (arr_loop_rt pf f ind rest l [] true f); [cbn [rev app unsign]; reflexivity|lia|].
-      apply Forall_forall. intros x Hx. split; [apply Hw; exact Hx|]. split; [apply Hn; exact Hx|].
-      intros rest' Hr. apply IH; [exact Hx|apply Hw; exact Hx|apply Hn; exact Hx|exact Hr|].
-      pose proof (sum_tlen_ge l x Hx). lia.
-    - destruct fuel as [|f]; [lia|]. rewrite render_obj. cbn [app parse_json_value].
-      rewrite skip_unused_head by (reflexivity || discriminate).
+      destruct l as [|x0 l0].
+      + (* the empty array: nothing but the closing bracket, after whatever whitespace there is *)
+        cbn [ritems app]. destruct f as [|f]; [cbn [length] in Hf; lia|]. cbn [arr_loop].
+        rewrite app_assoc.
+        rewrite (skip_unused_ws (wo ++ closing ind)) by (try (apply Forall_app; split; [exact Hwo|apply ws_closing]); reflexivity || discriminate).
+        change (93 =? 93) with true. reflexivity.
+      + (* the first element follows the opening bracket (and, when pretty, a line break and the indentation) *)
+        assert (HF : Forall (fun x => wf_shape x = true /\ no_float x = true /\
+                     forall w0 rest', ws_list w0 -> after_value rest' ->
+                       parse_json_value f (w0 ++ render pf pretty (ind + 2) x ++ rest') = Ok (unsign x, rest')) (x0 :: l0)).
+        { apply Forall_forall. intros x Hx. split; [apply Hw; exact Hx|]. split; [apply Hn; exact Hx|].
+          intros w0 rest' Hw0 Hr. apply IH; [exact Hx|apply Hw; exact Hx|apply Hn; exact Hx|exact Hw0|exact Hr|].
+          pose proof (sum_tlen_ge (x0 :: l0) x Hx). lia. }
+        inversion HF as [|? ? (Hw0 & Hn0 & Hx0) HF']; subst.
+        destruct (render_head x0 (ind + 2) Hw0 Hn0) as (c & r0 & Ec & (W & N92 & N93 & N44 & N125)).
+        rewrite ritems_cons.
+        replace (wo ++ ([] ++ pad (ind + 2) ++ render pf pretty (ind + 2) x0 ++ ritems ind false l0) ++ closing ind ++ 93 :: rest)
+          with ((wo ++ pad (ind + 2)) ++ c :: (r0 ++ ritems ind false l0 ++ closing ind ++ 93 :: rest))
+          by (rewrite Ec; cbn [app]; repeat (rewrite <- app_assoc || rewrite <- app_comm_cons); reflexivity).
+        destruct f as [|f']; [cbn [length] in Hf; lia|]. cbn [arr_loop].
+        rewrite (skip_unused_ws (wo ++ pad (ind + 2))) by (try (apply Forall_app; split; [exact Hwo|apply ws_pad]); assumption).
+        apply N.eqb_neq in N93. rewrite N93.
+        pose proof (Hx0 [] _ ltac:(constructor) (after_items ind l0 rest)) as P. cbn [app] in P. rewrite Ec in P. cbn [app] in P. rewrite P. cbn [bind].
+        rewrite (arr_loop_rt (S f') ind rest l0 [unsign x0] false f'); [cbn [rev app map unsign]; reflexivity|cbn [length] in Hf; lia|exact HF'].
+    - destruct fuel as [|f]; [lia|]. rewrite render_obj. destruct (opening_cons 123) as (wo & -> & Hwo).
+      replace (w ++ ((123 :: wo) ++ rmembers ind true o ++ closing ind ++ [125]) ++ rest)
+        with (w ++ 123 :: (wo ++ rmembers ind true o ++ closing ind ++ 125 :: rest))
+        by (cbn [app]; repeat (rewrite <- app_assoc || rewrite <- app_comm_cons); cbn [app]; reflexivity).
+      cbn [parse_json_value].
+      rewrite (skip_unused_ws w) by (assumption || reflexivity || discriminate).
       change (123 =? 110) with false. change (123 =? 116) with false. change (123 =? 102) with false.
       change (is_digit 123 || (123 =? 45)) with false. change (123 =? 34) with false. change (123 =? 91) with false. change (123 =? 123) with true. cbv iota.
-      rewrite <- app_assoc. cbn [app].
       cbn [tlen] in Hf. cbn [wf_shape] in Hw. apply andb_true_iff in Hw. destruct Hw as [Hs Hw].
       cbn [no_float] in Hn. rewrite forallb_forall in Hw, Hn. rewrite Forall_forall in IH.
-      rewrite (obj_loop_rt pf f ind rest ltac:(lia) o [] true f); [cbn [app unsign]; reflexivity|lia| |apply keys_sorted_strong; exact Hs|constructor].
-      apply Forall_forall. intros [k x] Hx. cbn [fst snd]. specialize (Hw _ Hx). cbn [fst snd] in Hw.
-      apply andb_true_iff in Hw. destruct Hw as [Hw Hwx]. apply andb_true_iff in Hw. destruct Hw as [Hkb Hku].
-      split; [unfold bytes_ok; apply Forall_forall; unfold bytes_okb in Hkb; rewrite forallb_forall in Hkb; intros y Hy; apply N.ltb_lt; apply Hkb; exact Hy|].
-      split; [exact Hku|]. split; [exact Hwx|]. split; [apply (Hn _ Hx)|].
-      intros rest' Hr. apply (IH _ Hx); [exact Hwx|apply (Hn _ Hx)|exact Hr|].
-      pose proof (sum_tlen_ge_obj o (k, x) Hx) as G. cbn [snd] in *. lia.
+      assert (HF : Forall (fun kv => bytes_ok (fst kv) /\ utf8_valid (fst kv) = true /\ wf_shape (snd kv) = true /\ no_float (snd kv) = true /\
+                      forall w0 rest', ws_list w0 -> after_value rest' ->
+                        parse_json_value f (w0 ++ render pf pretty (ind + 2) (snd kv) ++ rest') = Ok (unsign (snd kv), rest')) o).
+      { apply Forall_forall. intros [k x] Hx. cbn [fst snd]. specialize (Hw _ Hx). cbn [fst snd] in Hw.
+        apply andb_true_iff in Hw. destruct Hw as [Hw Hwx]. apply andb_true_iff in Hw. destruct Hw as [Hkb Hku].
+        split; [unfold bytes_ok; apply Forall_forall; unfold bytes_okb in Hkb; rewrite forallb_forall in Hkb; intros y Hy; apply N.ltb_lt; apply Hkb; exact Hy|].
+        split; [exact Hku|]. split; [exact Hwx|]. split; [apply (Hn _ Hx)|].
+        intros w0 rest' Hw0 Hr. apply (IH _ Hx); [exact Hwx|apply (Hn _ Hx)|exact Hw0|exact Hr|].
+        pose proof (sum_tlen_ge_obj o (k, x) Hx) as G. cbn [snd] in *. lia. }
+      pose proof (keys_sorted_strong o Hs) as HS.
+      destruct o as [|[k0 x0] o0].
+      + cbn [rmembers app]. destruct f as [|f]; [cbn [length] in Hf; lia|]. cbn [obj_loop].
+        rewrite app_assoc.
+        rewrite (skip_unused_ws (wo ++ closing ind)) by (try (apply Forall_app; split; [exact Hwo|apply ws_closing]); reflexivity || discriminate).
+        change (125 =? 125) with true. reflexivity.
+      + inversion HF as [|? ? (Hkb & Hku & Hw0 & Hn0 & Hx0) HF']; subst. cbn [fst snd] in *.
+        destruct HS as [HS1 HS2].
+        destruct colon_cons as (wc & EC & Hwc).
+        rewrite rmembers_cons.
+        replace (wo ++ ([] ++ pad (ind + 2) ++ escape_string k0 ++ colon ++ render pf pretty (ind + 2) x0 ++ rmembers ind false o0) ++ closing ind ++ 125 :: rest)
+          with ((wo ++ pad (ind + 2)) ++ 34 :: (flat_map escape_byte k0 ++ 34 :: (colon ++ render pf pretty (ind + 2) x0 ++ rmembers ind false o0 ++ closing ind ++ 125 :: rest)))
+          by (unfold escape_string; cbn [app]; repeat (rewrite <- app_assoc || rewrite <- app_comm_cons); cbn [app]; reflexivity).
+        destruct f as [|f']; [cbn [length] in Hf; lia|]. cbn [obj_loop].
+        rewrite (skip_unused_ws (wo ++ pad (ind + 2))) by (try (apply Forall_app; split; [exact Hwo|apply ws_pad]); reflexivity || discriminate).
+        change (34 =? 125) with false. cbv iota.
+        pose proof (string_value_rt [] k0 (colon ++ render pf pretty (ind + 2) x0 ++ rmembers ind false o0 ++ closing ind ++ 125 :: rest) (S f') ltac:(constructor) Hkb Hku ltac:(lia)) as PS.
+        unfold escape_string in PS. cbn [app] in PS. rewrite <- app_assoc in PS. cbn [app] in PS. rewrite PS. cbn [bind]. rewrite EC. cbn [app].
+        rewrite skip_unused_head by (reflexivity || discriminate).
+        rewrite (Hx0 wc _ Hwc (after_members ind o0 rest)). cbn [bind assoc_insert].
+        rewrite (obj_loop_rt (S f') ind rest ltac:(lia) o0 [(k0, unsign x0)] false f');
+          [cbn [app unsign map fst snd]; reflexivity|cbn [length] in Hf; lia|exact HF'|exact HS2|constructor; [exact HS1|constructor]].
   Qed.
 
   (* the measure is bounded by the length of the text, so the fuel parse_value hands over is enough *)
-  Lemma ritems_len ind : forall l first, Forall (fun x => (tlen x <= length (render pf false (ind + 2) x))%nat) l ->
-    (length l + fold_right (fun x a => tlen x + a) 0 l <= length (ritems pf ind first l) + (if first then 1 else 0))%nat.
+  Lemma ritems_len ind : forall l first, Forall (fun x => (tlen x <= length (render pf pretty (ind + 2) x))%nat) l ->
+    (length l + fold_right (fun x a => tlen x + a) 0 l <= length (ritems ind first l) + (if first then 1 else 0))%nat.
   Proof.
     induction l as [|x r IH]; intros first HF; [cbn; lia|]. inversion HF as [|? ? Hx HF']; subst.
-    rewrite ritems_cons. cbn [length fold_right]. rewrite !app_length. specialize (IH false HF'). cbv iota in IH. destruct first; cbn [length]; lia.
+    rewrite ritems_cons. cbn [length fold_right]. rewrite !app_length. specialize (IH false HF'). cbv iota in IH.
+    destruct first; [cbn [length]; lia|]. destruct sep_cons as (ws & -> & _). cbn [length]. lia.
   Qed.
-  Lemma rmembers_len ind : forall o first, Forall (fun kv => (tlen (snd kv) <= length (render pf false (ind + 2) (snd kv)))%nat) o ->
-    (length o + fold_right (fun kv a => tlen (snd kv) + a) 0 o <= length (rmembers pf ind first o) + (if first then 1 else 0))%nat.
+  Lemma rmembers_len ind : forall o first, Forall (fun kv => (tlen (snd kv) <= length (render pf pretty (ind + 2) (snd kv)))%nat) o ->
+    (length o + fold_right (fun kv a => tlen (snd kv) + a) 0 o <= length (rmembers ind first o) + (if first then 1 else 0))%nat.
   Proof.
     induction o as [|[k x] r IH]; intros first HF; [cbn; lia|]. inversion HF as [|? ? Hx HF']; subst. cbn [snd] in Hx.
-    rewrite rmembers_cons. cbn [length fold_right snd]. rewrite !app_length. cbn [length]. rewrite app_length. specialize (IH false HF'). cbv iota in IH. destruct first; cbn [length]; lia.
+    rewrite rmembers_cons. cbn [length fold_right snd]. rewrite !app_length. specialize (IH false HF'). cbv iota in IH.
+    destruct first; [cbn [length]; lia|]. destruct sep_cons as (ws & -> & _). cbn [length]. lia.
   Qed.
-  Lemma tlen_le_len : forall v ind, wf_shape v = true -> no_float v = true -> (tlen v <= length (render pf false ind v))%nat.
+  Lemma tlen_le_len : forall v ind, wf_shape v = true -> no_float v = true -> (tlen v <= length (render pf pretty ind v))%nat.
   Proof.
     induction v as [|b|s|n|l IH|o IH] using value_ind2; intros ind Hw Hn;
-      try (destruct (render_head pf _ ind Hw Hn) as (c & r & E & _); rewrite E; cbn [tlen length]; lia).
-    - rewrite render_arr. cbn [tlen length]. rewrite app_length. cbn [length].
+      try (destruct (render_head _ ind Hw Hn) as (c & r & E & _); rewrite E; cbn [tlen length]; lia).
+    - rewrite render_arr. destruct (opening_cons 91) as (wo & -> & _). cbn [tlen length app]. rewrite !app_length. cbn [length].
       cbn [wf_shape] in Hw. cbn [no_float] in Hn. rewrite forallb_forall in Hw, Hn.
-      assert (HF : Forall (fun x => (tlen x <= length (render pf false (ind + 2) x))%nat) l).
+      assert (HF : Forall (fun x => (tlen x <= length (render pf pretty (ind + 2) x))%nat) l).
       { rewrite Forall_forall in *. intros x Hx. apply IH; [exact Hx|apply Hw; exact Hx|apply Hn; exact Hx]. }
       pose proof (ritems_len ind l true HF) as G. cbv iota in G. lia.
-    - rewrite render_obj. cbn [tlen length]. rewrite app_length. cbn [length].
+    - rewrite render_obj. destruct (opening_cons 123) as (wo & -> & _). cbn [tlen length app]. rewrite !app_length. cbn [length].
       cbn [wf_shape] in Hw. apply andb_true_iff in Hw. destruct Hw as [_ Hw]. cbn [no_float] in Hn. rewrite forallb_forall in Hw, Hn.
-      assert (HF : Forall (fun kv => (tlen (snd kv) <= length (render pf false (ind + 2) (snd kv)))%nat) o).
+      assert (HF : Forall (fun kv => (tlen (snd kv) <= length (render pf pretty (ind + 2) (snd kv)))%nat) o).
       { rewrite Forall_forall in *. intros kv Hx. apply (IH kv Hx); [|apply (Hn kv Hx)].
         specialize (Hw kv Hx). apply andb_true_iff in Hw. apply Hw. }
       pose proof (rmembers_len ind o true HF) as G. cbv iota in G. lia.
   Qed.
 
-  (* C02 / C03: the compact rendering of a document without floats parses back to the document
-     (non-negative integers come back unsigned, as the text parser types them) *)
-  Theorem parse_render_roundtrip v : wf_shape v = true -> no_float v = true -> parse_value (to_string_t pf v) = Ok (unsign v).
+  Theorem parse_rendering v : wf_shape v = true -> no_float v = true -> parse_value (render pf pretty 0 v) = Ok (unsign v).
   Proof.
-    intros Hw Hn. unfold parse_value, to_string_t.
-    pose proof (value_rt v Hw Hn 0 [] (S (length (render pf false 0 v))) I) as R. rewrite app_nil_r in R.
+    intros Hw Hn. unfold parse_value.
+    pose proof (value_rt v Hw Hn 0 [] [] (S (length (render pf pretty 0 v))) ltac:(constructor) I) as R. cbn [app] in R. rewrite app_nil_r in R.
     rewrite R by (pose proof (tlen_le_len v 0 Hw Hn); lia). cbn [bind]. reflexivity.
   Qed.
-End Roundtrip3.
+End Roundtrip.
+
+(* C02 / C03: both renderings of a document without floats parse back to the document (non-negative integers come
+   back unsigned, as the text parser types them); so the pretty rendering and the compact one denote the same value *)
+Theorem parse_render_roundtrip pf v : wf_shape v = true -> no_float v = true -> parse_value (to_string_t pf v) = Ok (unsign v).
+Proof. exact (parse_rendering pf false v). Qed.
+Theorem parse_pretty_roundtrip pf v : wf_shape v = true -> no_float v = true -> parse_value (to_pretty_string_t pf v) = Ok (unsign v).
+Proof. exact (parse_rendering pf true v). Qed.
